@@ -3,9 +3,11 @@
   (definitions: SV/Model/C04.lean, SV/Spec/C04.lean; helper lemmas: SV/Proofs/C04.lean).
 
   `V schema instance` is JSON-Schema validity (third-party `jsonschema` behind the OpenAPI→JSON-Schema conversion);
-  every theorem holds for EVERY `V`.  Theorems ending in `_repaired` are about the proposed repairs of the four
+  every theorem holds for EVERY `V`.  Theorems ending in `_repaired` are about the proposed repairs of the six
   defect sites, `_asFound_partial` about the pinned code on the sub-domain where it is right, `asFound_*` witnesses
   refute the full statement for the pinned code (replayed on the real code by harness/corr/c04.py).
+  In the `formats` section validity is `W fmt schema instance`, a function of the format predicate `fmt` the
+  validator is handed, and `F f v` is the truth of "v conforms to format f"; the theorems hold for EVERY `W` and `F`.
 -/
 import SV.Proofs.C04
 
@@ -121,10 +123,23 @@ theorem content_type_exact_repaired (vs : Variants) (doc : Doc) (r : Resp) (hv :
     (contentTypeCheck vs doc r).reports = devContentType doc r :=
   content_type_core vs doc r (by rw [hv]; exact lookup_repaired_eq_spec doc hk _) hm hp
 
+/-- A documented header is reported iff it is required and absent, or present and valid under NO reading of its text
+    as a value of a documented type (own type, type of the `$ref` target, type list, null when nullable). -/
 theorem headers_exact_repaired (V : Json → Json → Bool) (vs : Variants) (doc : Doc) (r : Resp)
-    (hv : vs.lookup = .repaired) (hh : vs.hdrRef = .repaired) (hk : keysWf doc = true) :
+    (hv : vs.lookup = .repaired) (hh : vs.hdrRef = .repaired) (hkw : vs.hdrKw = .repaired)
+    (hty : vs.hdrType = .repaired) (hk : keysWf doc = true) :
     (headersCheck V vs doc r).reports = devHeaders V doc r :=
   headers_core V vs doc r (by rw [hv]; exact lookup_repaired_eq_spec doc hk _) (by intro _ _ _ _; rw [hh]; rfl)
+    (by intro _ _ h _ value; rw [valueInvalid_repaired V vs _ h value hkw hty,
+          valueInvalid_repaired V Variants.allRepaired _ h value rfl rfl])
+
+/-- The preparation and coercion of a header schema as found (keyword filter, `nullable` → `anyOf`, type default,
+    coercion by the top-level `type`) give the documented reading on plain schemas: inline, supported keywords only,
+    not nullable, `type` absent or one name. -/
+theorem header_value_asFound_partial (V : Json → Json → Bool) (fl : Flavour) (h : HeaderDef) (value : List Char)
+    (hk : keywordsSupported fl h.schema = true) (hp : plainType fl h = true) :
+    valueInvalid V Variants.allAsFound fl h value = !((readings fl h value).any (V (prepSchema h.schema))) := by
+  rw [valueInvalid_asFound_plain V fl h value hk hp, valueInvalid_repaired V Variants.allRepaired fl h value rfl rfl]
 
 theorem body_exact_repaired (V : Json → Json → Bool) (vs : Variants) (doc : Doc) (r : Resp)
     (hv : vs.lookup = .repaired) (hmv : vs.media = .repaired) (hk : keysWf doc = true) (hm : docMediaWf doc = true)
@@ -147,16 +162,17 @@ theorem verdict_repaired (V : Json → Json → Bool) (doc : Doc) (r : Resp)
 /-! ## the code as found -/
 
 /-- C04 for the code as found holds on the sub-domain: the status is documented explicitly or by no range key,
-    every response documents at most one media type, no required header is documented through `$ref`, and the
-    Content-Type is absent, empty or readable. -/
+    every response documents at most one media type, no required header is documented through `$ref`, the
+    Content-Type is absent, empty or readable, and every header schema is plain (inline, supported keywords only,
+    not nullable, `type` absent or one name). -/
 theorem verdict_asFound_partial (V : Json → Json → Bool) (doc : Doc) (r : Resp)
     (hk : keysWf doc = true) (hm : docMediaWf doc = true) (hp : respMediaPlain r = true)
     (hw : producesWf doc = true)
     (h1 : noRangeOnly doc r.status = true) (h2 : singleMedia doc = true) (h3 : noRequiredRefHeader doc = true)
-    (h4 : ctNoCrash r = true) :
+    (h4 : ctNoCrash r = true) (h5 : plainHeaders doc = true) :
     (runAll V Variants.allAsFound doc r).reports = deviates V doc r ∧
       (runAll V Variants.allAsFound doc r).isError = false :=
-  SV.Proofs.C04.verdict_asFound_partial V doc r hk hm hp hw h1 h2 h3 h4
+  SV.Proofs.C04.verdict_asFound_partial V doc r hk hm hp hw h1 h2 h3 h4 h5
 
 /-! ### witnesses: each dropped hypothesis is necessary (kernel-checked; replayed on the real code by the harness) -/
 
@@ -205,6 +221,39 @@ theorem asFound_malformed_content_type_crash :
     runAll V0 Variants.allRepaired docJson r = .ok [.malformedMediaType] := by
   decide
 
+/-- a `nullable` header of a non-string type is unsatisfiable as found: `anyOf [integer, null]` ends up beside the
+    defaulted `type: string`, the value is not coerced, and the conforming `5` is reported -/
+theorem asFound_nullable_typed_header_false_alarm :
+    runAll V1 Variants.allAsFound (hdrDoc false nullIntSchema none) (hdrResp "5") = .ok [.headerSchema] ∧
+    deviates V1 (hdrDoc false nullIntSchema none) (hdrResp "5") = false ∧
+    runAll V1 Variants.allRepaired (hdrDoc false nullIntSchema none) (hdrResp "5") = .ok [] ∧
+    runAll V1 Variants.allRepaired (hdrDoc false nullIntSchema none) (hdrResp "null") = .ok [] ∧
+    runAll V1 Variants.allRepaired (hdrDoc false nullIntSchema none) (hdrResp "abc") = .ok [.headerSchema] := by
+  decide
+
+/-- a header whose schema is a `$ref` to an integer schema is never coerced as found: the conforming `5` is reported -/
+theorem asFound_ref_header_schema_false_alarm :
+    runAll V1 Variants.allAsFound (hdrDoc false refSchema (some intSchema)) (hdrResp "5") = .ok [.headerSchema] ∧
+    deviates V1 (hdrDoc false refSchema (some intSchema)) (hdrResp "5") = false ∧
+    runAll V1 Variants.allRepaired (hdrDoc false refSchema (some intSchema)) (hdrResp "5") = .ok [] ∧
+    runAll V1 Variants.allRepaired (hdrDoc false refSchema (some intSchema)) (hdrResp "abc") = .ok [.headerSchema] := by
+  decide
+
+/-- OpenAPI 3.1 `type: [integer, null]`: a type list is not understood by the coercion as found -/
+theorem asFound_type_list_header_false_alarm :
+    runAll V1 Variants.allAsFound (hdrDoc true typeListSchema none) (hdrResp "5") = .ok [.headerSchema] ∧
+    deviates V1 (hdrDoc true typeListSchema none) (hdrResp "5") = false ∧
+    runAll V1 Variants.allRepaired (hdrDoc true typeListSchema none) (hdrResp "5") = .ok [] := by
+  decide
+
+/-- OpenAPI 3.1 `const` is dropped from the header schema by the 3.0 keyword list: the violating `b` passes -/
+theorem asFound_const_header_miss :
+    runAll V1 Variants.allAsFound (hdrDoc true constSchema none) (hdrResp "b") = .ok [] ∧
+    deviates V1 (hdrDoc true constSchema none) (hdrResp "b") = true ∧
+    runAll V1 Variants.allRepaired (hdrDoc true constSchema none) (hdrResp "b") = .ok [.headerSchema] ∧
+    keywordsSupported .openapi31 constSchema = false := by
+  decide
+
 /-- The full statement is false for the code as found: well-formedness alone does not give the equivalence. -/
 theorem verdict_asFound_full_false :
     ¬ ∀ (V : Json → Json → Bool) (doc : Doc) (r : Resp), keysWf doc = true → docMediaWf doc = true →
@@ -226,7 +275,7 @@ example :
     let r : Resp := ⟨200, some "application/json; charset=utf-8".toList, [], some (.obj [])⟩
     keysWf docJson = true ∧ docMediaWf docJson = true ∧ respMediaPlain r = true ∧ producesWf docJson = true ∧
     noRangeOnly docJson r.status = true ∧ singleMedia docJson = true ∧ noRequiredRefHeader docJson = true ∧
-    ctNoCrash r = true ∧ deviates V0 docJson r = true ∧
+    ctNoCrash r = true ∧ plainHeaders docJson = true ∧ deviates V0 docJson r = true ∧
     runAll V0 Variants.allAsFound docJson r = .ok [.bodySchema] := by decide
 
 example : keyWf "20x".toList = true ∧ keyMatches "20x".toList 204 = true ∧ keyMatches "20x".toList 214 = false := by
@@ -251,5 +300,106 @@ example :
 
 /-- without the hypothesis of `parse_plain` the two readings differ -/
 example : parseMedia "a/\"b;c\"".toList ≠ refParse "a/\"b;c\"".toList := by decide
+
+/-- `header_value_asFound_partial` / `plainHeaders` are not vacuous: a typed header, read through the coercion -/
+example :
+    let d := hdrDoc false intSchema none
+    plainHeaders d = true ∧ keysWf d = true ∧ noRangeOnly d 200 = true ∧
+    runAll V1 Variants.allAsFound d (hdrResp "abc") = .ok [.headerSchema] ∧ deviates V1 d (hdrResp "abc") = true ∧
+    runAll V1 Variants.allAsFound d (hdrResp "42") = .ok [] := by decide
+
+/-! ## formats: which documented `format`s are enforced -/
+
+/-- The checker handed to both `jsonschema.validate` calls (the 2020-12 one) knows exactly the defined formats of the
+    JSON-Schema validation vocabulary: no defined format goes unenforced, no other name is enforced. -/
+theorem checker_formats_exact (f : String) : Draft.d202012.formats.contains f = assertedFormats.contains f := by
+  simp only [Draft.formats, assertedFormats, List.contains_cons, List.contains_nil, Bool.or_false]
+  rw [Bool.eq_iff_iff]
+  simp only [Bool.or_eq_true, beq_iff_eq]
+  grind
+
+/-- Header values are checked against every defined format, for every flavour of document and every truth `F`. -/
+theorem header_checker_exact (fl : Flavour) (F : String → Json → Bool) :
+    checkerFmt (headerChecker fl) F = specFmt F := by
+  funext f v
+  simp only [checkerFmt, specFmt, headerChecker, checker_formats_exact]
+
+/-- Bodies likewise. -/
+theorem body_checker_exact (fl : Flavour) (F : String → Json → Bool) :
+    checkerFmt (bodyChecker fl) F = specFmt F := by
+  funext f v
+  simp only [checkerFmt, specFmt, bodyChecker, checker_formats_exact]
+
+/-- Every older checker knows a subset of what the 2020-12 checker knows: handing over the newest one never loses a
+    format, whatever validator class the document's version selects. -/
+theorem newest_checker_greatest (d : Draft) (f : String) (h : d.formats.contains f = true) :
+    Draft.d202012.formats.contains f = true := by
+  cases d <;>
+    simp only [Draft.formats, List.contains_cons, List.contains_nil, Bool.or_false, Bool.or_eq_true, beq_iff_eq] at h ⊢ <;>
+    grind
+
+/-- The choice matters: the validator class's own checker (Draft 4 for Swagger 2.0 and OpenAPI 3.0) leaves these
+    defined formats unenforced; for OpenAPI 3.1 the two checkers coincide. -/
+theorem own_checker_gap :
+    assertedFormats.filter (fun f => !((validatorCls .swagger2).formats.contains f)) =
+      ["date", "time", "duration", "idn-hostname", "uri-reference", "iri", "iri-reference", "uuid", "uri-template",
+       "json-pointer", "relative-json-pointer"] ∧
+    assertedFormats.filter (fun f => !((validatorCls .openapi30).formats.contains f)) =
+      ["date", "time", "duration", "idn-hostname", "uri-reference", "iri", "iri-reference", "uuid", "uri-template",
+       "json-pointer", "relative-json-pointer"] ∧
+    assertedFormats.filter (fun f => !((validatorCls .openapi31).formats.contains f)) = [] := by
+  decide
+
+/-- C04 with formats, repaired variants: for every validity `W` (a function of the format predicate it is handed),
+    every truth `F` of the format predicates, every well-formed document of any flavour and every response, the four
+    checks report iff the response deviates from the documentation read with every defined format enforced. -/
+theorem verdict_formats_repaired (W : (String → Json → Bool) → Json → Json → Bool) (F : String → Json → Bool)
+    (doc : Doc) (r : Resp) (hk : keysWf doc = true) (hm : docMediaWf doc = true) (hp : respMediaPlain r = true)
+    (hw : producesWf doc = true) :
+    (runAllF W F Variants.allRepaired doc r).reports = deviatesF W F doc r ∧
+      (runAllF W F Variants.allRepaired doc r).isError = false := by
+  unfold runAllF deviatesF
+  rw [header_checker_exact, body_checker_exact]
+  exact SV.Proofs.C04.verdict_repaired (W (specFmt F)) doc r hk hm hp hw
+
+/-- The same for the code as found on its sub-domain: the format checkers need no extra hypothesis. -/
+theorem verdict_formats_asFound_partial (W : (String → Json → Bool) → Json → Json → Bool) (F : String → Json → Bool)
+    (doc : Doc) (r : Resp) (hk : keysWf doc = true) (hm : docMediaWf doc = true) (hp : respMediaPlain r = true)
+    (hw : producesWf doc = true)
+    (h1 : noRangeOnly doc r.status = true) (h2 : singleMedia doc = true) (h3 : noRequiredRefHeader doc = true)
+    (h4 : ctNoCrash r = true) (h5 : plainHeaders doc = true) :
+    (runAllF W F Variants.allAsFound doc r).reports = deviatesF W F doc r ∧
+      (runAllF W F Variants.allAsFound doc r).isError = false := by
+  unfold runAllF deviatesF
+  rw [header_checker_exact, body_checker_exact]
+  exact SV.Proofs.C04.verdict_asFound_partial (W (specFmt F)) doc r hk hm hp hw h1 h2 h3 h4 h5
+
+/-- Non-vacuity and necessity, in all three flavours: a header and a body that violate `format: uuid` are both
+    reported and do deviate, conforming ones pass — and with the validator class's own checker in the header check
+    (Draft 4 for 2.0 / 3.0) the violating header would pass although it deviates. -/
+theorem format_enforced_witness :
+    (∀ v : Bool × Bool, v ∈ [(true, false), (false, false), (false, true)] →
+      runAllF W0 F0 Variants.allAsFound (docUuid v.1 v.2) (uuidResp "zzzzzzzz-zzzz-zzzz-zzzz-zzzzzzzzzzzz" "nope") =
+        .ok [.headerSchema, .bodySchema] ∧
+      deviatesF W0 F0 (docUuid v.1 v.2) (uuidResp "zzzzzzzz-zzzz-zzzz-zzzz-zzzzzzzzzzzz" "nope") = true ∧
+      runAllF W0 F0 Variants.allAsFound (docUuid v.1 v.2) (uuidResp goodUuid goodUuid) = .ok [] ∧
+      deviatesF W0 F0 (docUuid v.1 v.2) (uuidResp goodUuid goodUuid) = false) ∧
+    headersCheck (W0 (checkerFmt (validatorCls .openapi30) F0)) Variants.allRepaired (docUuid false false)
+      (uuidResp "zzzzzzzz-zzzz-zzzz-zzzz-zzzzzzzzzzzz" goodUuid) = .ok [] ∧
+    devHeaders (W0 (specFmt F0)) (docUuid false false) (uuidResp "zzzzzzzz-zzzz-zzzz-zzzz-zzzzzzzzzzzz" goodUuid) = true := by
+  decide
+
+/-- a format outside the vocabulary (`int32`) is an annotation for checker and specification alike -/
+example (F : String → Json → Bool) (v : Json) :
+    checkerFmt (headerChecker .openapi30) F "int32" v = true ∧ specFmt F "int32" v = true := by
+  constructor <;> simp [checkerFmt, specFmt, headerChecker, Draft.formats, assertedFormats]
+
+/-- the hypotheses of `verdict_formats_asFound_partial` are met by the uuid document -/
+example :
+    let d := docUuid false false
+    let r := uuidResp "zzzzzzzz-zzzz-zzzz-zzzz-zzzzzzzzzzzz" goodUuid
+    keysWf d = true ∧ docMediaWf d = true ∧ respMediaPlain r = true ∧ producesWf d = true ∧
+    noRangeOnly d r.status = true ∧ singleMedia d = true ∧ noRequiredRefHeader d = true ∧ ctNoCrash r = true ∧
+    plainHeaders d = true ∧ deviatesF W0 F0 d r = true := by decide
 
 end SV.Props.C04
